@@ -174,6 +174,40 @@ theorem inStep_frame :
       · rw [hp]; exact ⟨_, _, _, _, _, _, _, rfl⟩
 end
 
+/-- the number of segments removed by `una` in the prologue -/
+def inCnt (regular : Bool) (wnd : BitVec 16) (una : U32) (k : Kcp) : Nat :=
+  (parseUna (if regular then { k with rmt_wnd := wnd.setWidth 32 } else k) una).2
+
+/-- the whole loop state after a step, by command -/
+theorem inStep_eq (regular : Bool) (conv : U32) (cmd frg : BitVec 8) (wnd : BitVec 16) (ts sn una : U32)
+    (payload : Bytes) (st : InLoop) :
+    inStep regular conv cmd frg wnd ts sn una payload st =
+      if cmd.toNat = IKCP_CMD_ACK then
+        { st with k := (parseFastack (parseAck (inPre regular wnd una st.k) sn) sn ts).1,
+                  flushSeg := (st.flushSeg || decide (inCnt regular wnd una st.k > 0)) ||
+                    (parseFastack (parseAck (inPre regular wnd una st.k) sn) sn ts).2,
+                  updRtt := true, latest := ts }
+      else if cmd.toNat = IKCP_CMD_PUSH then
+        if itimediff sn ((inPre regular wnd una st.k).rcv_nxt + (inPre regular wnd una st.k).rcv_wnd) < 0 then
+          if itimediff sn (inPre regular wnd una st.k).rcv_nxt ≥ 0 then
+            { st with
+              k := (parseData { inPre regular wnd una st.k with acklist := (inPre regular wnd una st.k).acklist ++ [⟨sn, ts⟩] }
+                (pushSeg conv cmd frg wnd ts sn una payload)).k,
+              flushSeg := st.flushSeg || decide (inCnt regular wnd una st.k > 0),
+              panic := (parseData { inPre regular wnd una st.k with acklist := (inPre regular wnd una st.k).acklist ++ [⟨sn, ts⟩] }
+                (pushSeg conv cmd frg wnd ts sn una payload)).panic }
+          else { st with k := { inPre regular wnd una st.k with acklist := (inPre regular wnd una st.k).acklist ++ [⟨sn, ts⟩] },
+                         flushSeg := st.flushSeg || decide (inCnt regular wnd una st.k > 0) }
+        else { st with k := inPre regular wnd una st.k, flushSeg := st.flushSeg || decide (inCnt regular wnd una st.k > 0) }
+      else if cmd.toNat = IKCP_CMD_WASK then
+        { st with k := { inPre regular wnd una st.k with probe := (inPre regular wnd una st.k).probe ||| u32 IKCP_ASK_TELL },
+                  flushSeg := st.flushSeg || decide (inCnt regular wnd una st.k > 0) }
+      else { st with k := inPre regular wnd una st.k, flushSeg := st.flushSeg || decide (inCnt regular wnd una st.k > 0) } := by
+  unfold inStep inPre pushSeg inCnt
+  simp only []
+  repeat' split
+  all_goals rfl
+
 /-! ### `input` cut into its parts -/
 
 /-- the parse loop of `Input` from the initial loop state -/
